@@ -254,6 +254,17 @@ Definition dispatch_rtp (op : Z) (args : list tok) : value :=
     | Ok r => d_clone (hdr (pr_packet r)) (payload (pr_packet r)) (padding_size (pr_packet r))
     | _ => VTag 97 VUnit
     end
+  | 2004, [TBytes w1; TBytes w2] =>
+    (* the packet cloned is a reused receiver: it decoded w1, then w2 (what Unmarshal yields does not
+       depend on the receiver, C02_reuse_packet) *)
+    match packet_unmarshal_into empty_packet w1 with
+    | Ok r1 =>
+      match packet_unmarshal_into (pr_packet r1) w2 with
+      | Ok r => d_clone (hdr (pr_packet r)) (payload (pr_packet r)) (padding_size (pr_packet r))
+      | _ => VTag 97 VUnit
+      end
+    | _ => VTag 97 VUnit
+    end
   | 501, [h; TList ops] =>
     match t_header h with
     | Some h =>
